@@ -194,26 +194,6 @@ def re_cross_conj(Ev, Hv, p):
     return A._real(v)
 
 
-def _fresh_solver(c):
-    """Between two configurations of one task: start from an empty hypothesis set.  Every
-    configuration creates its own fresh symbols, so the hypotheses of earlier configurations are
-    irrelevant for later ones; dropping hypotheses can only make proofs harder, never unsound, and
-    keeps the solver state (and the cost per obligation) constant.  Only done while the run has not
-    forked (no path condition to preserve)."""
-    import z3
-
-    from vc.core import Z3_TIMEOUT_MS
-
-    if c.decisions or c.pathcond:
-        return
-    c.solver = z3.Solver()
-    c.solver.set("timeout", Z3_TIMEOUT_MS)
-    c.assumptions = []
-    c._decide_cache.clear()
-    c.uf_apps = {}
-    c.divisors = []
-
-
 def is_repo_exception(e):
     """True iff the exception passed through a frame of the repository under verification (so it was
     raised by repository code, possibly inside a shim it called) and is not an engine signal
@@ -259,10 +239,52 @@ def guarded(name, fn, *a, **kw):
         return False, None
 
 
+def _run_isolated(outer, inp, label, fn):
+    """Run one configuration in its OWN nested session (fresh context and solver per path): a fork
+    inside a configuration re-executes only that configuration, hypotheses never leak between
+    configurations, and a repository exception on this in-domain use becomes a refuted obligation.
+    Obligations / covers / bounded records are forwarded to the task's session (so the harness'
+    witness extraction sees them); engine signals (Unsupported, Undecided) propagate."""
+    from vc import core
+
+    sub = core.Session(f"{outer.session.name}:{label}", axioms=outer.session.axioms, max_paths=256)
+    sub.bounded = outer.session.bounded
+    sub.record = lambda ob: outer.session.record(ob)
+    sub.record_cover = lambda name, ok: outer.session.record_cover(name, ok)
+
+    def body(cc):
+        inp.scalars.clear()
+        inp.arrays.clear()
+        inp.notes.clear()
+        cc.inputs = inp
+        orig = cc.prove
+
+        def pr(name, goal, *a, **kw):
+            return orig(label + ":" + name, goal, *a, **kw)
+
+        cc.prove = pr
+        try:
+            fn(cc, inp)
+        except Exception as e:  # noqa: BLE001
+            # every configuration is an in-domain use of the detectors (valid placement, update on
+            # fields of the box shape, post-processing of a well-shaped state): an exception raised by
+            # REPOSITORY code there is a refuted obligation (replayed on the real code), not a crash
+            if not is_repo_exception(e):
+                raise
+            note_exception(inp, e)
+            cc.prove("no_exception_on_valid_input", False)
+
+    try:
+        sub.run(body)
+    finally:
+        core._CTX[0] = outer
+    outer.session.aborted_paths += sub.aborted_paths
+
+
 def grouped(configs, chunk):
     """Every configuration is a few hundred milliseconds of work but a worker process costs seconds
     to start (jax / fdtdx imports): configurations of one kind are run back to back inside one task,
-    each under its own obligation-name prefix (no configuration forks, so nothing is re-executed)."""
+    each in its own nested session under its own obligation-name prefix."""
     from vc.harness import Task
 
     by_kind = {}
@@ -275,33 +297,10 @@ def grouped(configs, chunk):
 
             def body(c, inp, group=group):
                 for label in group:
-                    orig = c.prove
-
-                    def pr(name, goal, *a, _o=orig, _p=label + ":", **kw):
-                        return _o(_p + name, goal, *a, **kw)
-
-                    inp.scalars.clear()
-                    inp.arrays.clear()
-                    inp.notes.clear()
-                    _fresh_solver(c)
-                    c.prove = pr
-                    try:
-                        configs[label](c, inp)
-                    except Exception as e:  # noqa: BLE001
-                        # every configuration is an in-domain use of the detectors (valid placement,
-                        # update on fields of the box shape, post-processing of a well-shaped state):
-                        # an exception raised by REPOSITORY code there is a refuted obligation
-                        # (replayed on the real code), never a crash of the check
-                        if not is_repo_exception(e):
-                            raise
-                        note_exception(inp, e)
-                        c.prove("no_exception_on_valid_input", False)
-                    finally:
-                        c.prove = orig
+                    _run_isolated(c, inp, label, configs[label])
 
             out[f"{kind}/{gi // chunk:02d}"] = Task(body)
     return out
-
 
 
 # ---------------------------------------------------------------------------------------
